@@ -15,14 +15,21 @@ RULE = ("H1 (real quote.c, token822.c, qmail-remote.c addrmangle, commands.c, qm
         "(expected mailboxes known by construction), token soup. H2 (real qmail-inject.c main with headerbody.c, hfield.c, newfield.c and a stand-in queue): "
         "448 systematic flag/strategy/resent/args combinations, %(s)d messages with generated headers (To/Cc/Bcc/Apparently-To/Resent-*/sender fields/"
         "Return-Path, groups, routes, comments, quoted strings, literals, folding, missing commas) x random -a/-h/-H/-n/-f and QMAILINJECT letters and "
-        "default host/domain/plus configurations, %(m)d malformed messages; each produced message is injected a second time with -h. Every case also runs "
+        "default host/domain/plus configurations, %(m)d malformed messages; each produced message is injected a second time with -h; the real headerbody() "
+        "(headerbody.c + getln.c, stdin in 37-byte chunks) called directly with recording callbacks on every sequence of at most %(b)d of the pieces "
+        "{LF, SP, TAB, a, :, b, 'From '}, on %(m)d random line-pool messages (field starts, continuations, From lines, empty lines, junk, NUL/8-bit bytes, "
+        "missing final LF, lines longer than the buffer), on the stdin of every H2 case, and on %(m)d messages built by construction from well-formed field "
+        "texts (valid names incl. every printable byte, continuation lines, 8-bit bytes) followed by nothing or an empty line and arbitrary bytes. Every case also runs "
         "through the compiled Lean model (quote2/parse/unquote/unparse/addrlist/addrmangle/addrparse/inject). Oracles on the implementation's own output: "
         "unquote(parse(quote2 a))=a with shape word(.word)*@domain and token822_addrlist on these tokens makes exactly ONE callback with the whole address; "
         "addrparse(commands(MAIL FROM:<addrmangle a>))=a and the same for RCPT TO:<...> (or refused beyond 899 bytes, or "
         "localiphost for a local IP literal); parse(unparse ts)=ts; parse(render cts)=tokens of cts for every legal description (C17_parse_render); "
         "addrlist(ts) and addrlist(ts without comment tokens) return the same value and make the same callbacks (C17_comments_ignored); "
         "addrlist callbacks = listed mailboxes; on a generated grammatical header qmail-inject must exit 0 (Irejected); envelope recipients = listed mailboxes after the "
-        "documented rewriting per strategy; no Bcc/Resent-Bcc/Return-Path/Content-Length in the output; second injection yields the same visible recipients. "
+        "documented rewriting per strategy; no Bcc/Resent-Bcc/Return-Path/Content-Length in the output; second injection yields the same visible recipients; "
+        "headerbody()'s fields and body pieces are those of the declarative description Spec.HeaderBody (C17_headerbody_spec), reassemble the input "
+        "(reassembles), every field is hfield_valid and one logical line (C17_headerbody_laws), hdone is called once between fields and body; a message built from well-formed field texts is split into exactly these "
+        "texts (C17_headerbody_wellformed). "
         "non-trivial = distinct case whose local part needs quoting (Q), whose string is longer than 3 bytes (P), whose rendering has more than 3 tokens (R), or that carries generated mailboxes (I)")
 
 SMTPD_EXCLUDE = ["ipme.o"]
@@ -38,6 +45,10 @@ def case_line(f):
         return "P %s %s %s" % (f.get("n", "80"), f["in"], f.get("E", "X"))
     if k.startswith("R"):
         return "R %s %s" % (f["desc"], f["text"])
+    if k.startswith("W"):
+        return "W %s %s" % (f["texts"], f["tail"])
+    if k.startswith("B"):
+        return "B %s" % f["in"]
     if k.startswith("I") and k != "I2":
         return "I %s %s %s %s %s %s %s" % (f["flags"], f["strat"], f["f"], f["args"], f["env"], f["in"], f.get("E", "X"))
     return None
@@ -105,6 +116,15 @@ def stdin_cases(disagree, seed, per=300):
                     cases.add("P %s %s" % (n, f["in"]))
                 for _ in range(per):
                     cases.add("P %s %s" % (f.get("n", "80"), mutate_hex(f["in"], rnd, alpha)))
+            elif k == "W":
+                cases.add("W %s %s" % (f["texts"], f["tail"]))
+                cases.add("B %s" % f["in"])
+                for _ in range(per):
+                    cases.add("B %s" % mutate_hex(f["in"], rnd, b"\n \t:aFrom"))
+            elif k == "B":
+                cases.add("B %s" % f["in"])
+                for _ in range(per):
+                    cases.add("B %s" % mutate_hex(f["in"], rnd, b"\n \t:aFrom"))
             elif k == "I":
                 base = "I %s %s %s %s %s" % (f["flags"], f["strat"], f["f"], f["args"], f["env"])
                 cases.add("%s %s X" % (base, f["in"]))
@@ -120,7 +140,8 @@ def main():
     ok = c.proofs("Nq.Props.C17", drivers=["drv_c17"])
     s = c.build_repo()
     quick = c.tier == "quick"
-    par = {"q": 5 if quick else 6, "p": 5 if quick else 6, "s": 40000 if quick else 300000, "m": 20000 if quick else 150000}
+    par = {"q": 5 if quick else 6, "p": 5 if quick else 6, "s": 40000 if quick else 300000, "m": 20000 if quick else 150000,
+           "b": 6 if quick else 7}
     nrandq = 60000 if quick else 800000
     stats, samples, disagree, oracle, errors = {}, [], [], [], []
     hq = hi = None
@@ -142,7 +163,7 @@ def main():
                 for i in range(NCPU):
                     cmds.append("%s %d %d %d %d %d %d" % (hq, par["q"], par["p"], nrandq, c.seed, i, NCPU))
                 for i in range(NCPU):
-                    cmds.append("%s %d %d %d %d %d" % (hi, par["s"], par["m"], c.seed, i, NCPU))
+                    cmds.append("%s %d %d %d %d %d %d" % (hi, par["s"], par["m"], c.seed, i, NCPU, par["b"]))
             outs = run_pipeline(cmds, drv)
             stats, samples, disagree, oracle, errors = parse_driver_output(outs)
         except Exception as ex:
@@ -170,7 +191,10 @@ def main():
     # floors (audit repair): a run that JUDGED too few cases with its oracles must say so as an error, whatever the
     # number of cases it merely executed (skipped-because-not-legal / not-exit-0 / -n cases do not count)
     FLOORS = {"Q_header_checked": 500000, "Q_smtp": 500000, "P_reparse_checked": 100000, "P_nocomment_checked": 150000,
-              "P_grammar_checked": 10000, "R_legal_checked": 30000, "I_envelope_checked": 20000, "I_hidden_checked": 30000}
+              "P_grammar_checked": 10000, "R_legal_checked": 30000, "I_envelope_checked": 20000, "I_hidden_checked": 30000,
+              "B_checked": 150000, "B_mbox_line": 5000, "B_continuation": 5000, "B_inserted_blank_line": 5000,
+              "B_ended_by_stray_continuation": 1000, "B_unterminated_last_line": 5000, "B_no_body": 5000,
+              "W_wellformed_checked": 10000, "W_with_continuation": 3000, "I_hidden_theorem_applies": 20000}
     if stats and not c.replay and hq and hi:
         for k, floor in sorted(FLOORS.items()):
             if int(stats.get(k, 0)) < floor:
@@ -209,7 +233,7 @@ def main():
                      "quote2/parse/unquote/unparse/addrlist/addrmangle/addrparse/inject (Nq/Quote.lean, Token822.lean, SmtpAddr.lean, Inject.lean) "
                      "vs quote.c, token822.c, qmail-remote.c, commands.c, qmail-smtpd.c, qmail-inject.c, headerbody.c, hfield.c",
                      None,
-                     replay_hint="./check C17 --replay <this file>  (or a file of stdin cases: 'Q <local hex> <domain hex>' | 'P <linelen> <hex> [E]' | 'R <desc> <text hex>' | 'I …' as printed by harness/c17_inject.c)")
+                     replay_hint="./check C17 --replay <this file>  (or a file of stdin cases: 'Q <local hex> <domain hex>' | 'P <linelen> <hex> [E]' | 'R <desc> <text hex>' | 'B <stdin hex>' | 'I …' as printed by harness/c17_inject.c)")
     c.finish()
 
 
